@@ -9,7 +9,7 @@ mkdir -p /verif/.cache
 [ -f "$EV" ] && cp "$EV" "$SAVE"
 git -C /repo apply "$P" || { echo APPLY-FAILED; exit 2; }
 cd /verif && ./check "$ID" "$TIER"; RC=$?
-git -C /repo checkout -- .
+git -C /repo checkout -- . && git -C /repo clean -fdq -- include
 python3 /verif/tools/regen.py >/dev/null 2>&1
 [ -f "$SAVE" ] && mv "$SAVE" "$EV"
 echo "exit=$RC"
